@@ -4,7 +4,7 @@ from ..defuse import du_of, walk, peel, callee_name, fmt
 from ..conds import lits_of
 from ..callgraph import cg_of
 from ..roles import roles_of
-from ..common import arg_term, contains_call, call_named, whole_iteration
+from ..common import arg_term, contains_call, call_named, whole_iteration, inlined_sites, PARTIAL_ADAPTERS
 
 TEXT = ("Dominance and provenance rules on resolve_as and on every site that re-asserts an object read back from "
         "storage. V1: every state mutation in resolve_as is edge-dominated by `leafs.contains(chosen)` and "
@@ -36,17 +36,16 @@ def run(facts, res):
         return
     du = du_of(b)
     # ------------------------------------------------------------------ V1
-    muts = []
-    for s in cg.sites[b.path]:
-        c = s.callee
-        if c is None:
-            continue
-        if c.name in ("update_object", "delete_object", "create_object", "remove_object") or \
-                (c.name in ("add", "unvalidated_add") and "RevisionTree" in c.path):
-            muts.append(s)
+    # sites are read through the crate's private helpers (an extracted `reassert_chosen_leaf(uuid, chosen)` belongs to the
+    # operation); argument terms and literals are in resolve_as' frame
+    def is_mut(t):
+        c = t.callee
+        return c.name in ("update_object", "delete_object", "create_object", "remove_object") or \
+            (c.name in ("add", "unvalidated_add") and "RevisionTree" in c.path)
+    muts = inlined_sites(facts, b, is_mut)
     res.floor("V1", "state-mutating calls in resolve_as", len(muts), 2)
     for s in muts:
-        ls = lits_of(b, s.block, facts)
+        ls = s.lits
         has_contains = False
         has_len = False
         for l in ls:
@@ -62,17 +61,18 @@ def run(facts, res):
                     if (op == "Le" and k == 1 and t is False) or (op == "Gt" and k == 1 and t is True) or \
                             (op == "Lt" and k == 2 and t is False) or (op == "Ge" and k == 2 and t is True):
                         has_len = True
-        res.instance("V1", "%s at %s: under contains(chosen)=%s, len>1=%s" % (s.name(), s.loc(), has_contains, has_len), s.loc())
+        nm = s.term.callee.name
+        res.instance("V1", "%s at %s: under contains(chosen)=%s, len>1=%s" % (nm, s.loc(), has_contains, has_len), s.loc())
         if not (has_contains and has_len):
-            res.violation("V1", "resolve_as|unguarded-mutation:%s" % s.name(),
+            res.violation("V1", "resolve_as|unguarded-mutation:%s" % nm,
                           "resolve_as calls %s without being dominated by `leafs.contains(chosen)` (%s) and `leafs.len() > 1` (%s)" % (
-                              s.name(), has_contains, has_len), s.loc())
+                              nm, has_contains, has_len), s.loc())
 
     # ------------------------------------------------------------------ V2
-    ups = [s for s in cg.sites[b.path] if s.callee is not None and s.callee.name == "update_object"]
+    ups = inlined_sites(facts, b, lambda t: t.callee.name == "update_object")
     res.floor("V2", "update_object call in resolve_as", len(ups), 1)
     for s in ups:
-        obj = arg_term(b, s.term, 2, 30)
+        obj = s.args[2] if len(s.args) > 2 else ("cut",)
         ok = False
         for x in walk(obj):
             if x[0] == "call" and callee_name(x) == R.name("recon") and len(x[2]) >= 4:
@@ -86,19 +86,48 @@ def run(facts, res):
     # V2b: the re-assertion is not skippable: every path from the view reconstruction to the sealing of the other
     # leaves passes update_object or delete_object (for arrays in conflict the visible value is the *merge* of all leaves;
     # it exists as a revision only once it has been re-asserted, also when the chosen leaf already is the winner)
-    cfg = cfg_of(b)
-    recon = [s for s in cg.sites[b.path] if s.callee is not None and s.callee.name == R.name("recon")]
-    seals = [s for s in cg.sites[b.path] if s.callee is not None and s.callee.name == "add" and "RevisionTree" in s.callee.path]
-    reassert = {s.block for s in cg.sites[b.path] if s.callee is not None and s.callee.name in ("update_object", "delete_object")}
     from ..conds import all_edge_lits
-    plain_only = {e for e, l in all_edge_lits(b, facts) if l.kind == "call" and callee_name(l.term) == "is_array_descriptor" and l.truth is False}
-    if recon and seals:
-        skip = any(cfg.reaches(r.block, s.block, avoid=reassert | plain_only) for r in recon for s in seals)
-        res.instance("V2", "resolve_as: no path from the reconstruction to the sealing loop skips update_object / delete_object: %s" % (not skip), recon[0].loc())
+    from ..common import ok_blocks
+
+    def v2b_roles(fb):
+        sites = cg.sites[fb.path]
+        rec = {s.block for s in sites if s.callee is not None and s.callee.name == R.name("recon")}
+        rea = {s.block for s in sites if s.callee is not None and s.callee.name in ("update_object", "delete_object")}
+        sea = {s.block for s in sites if s.callee is not None and s.callee.name == "add" and "RevisionTree" in s.callee.path}
+        plain = {e for e, l in all_edge_lits(fb, facts) if l.kind == "call" and callee_name(l.term) == "is_array_descriptor" and l.truth is False}
+        return rec, rea, sea, plain
+    rec, rea, sea, plain_only = v2b_roles(b)
+    helper_note = []
+    for s in cg.sites[b.path]:
+        hb = facts.body(s.callee.target()) if s.callee is not None else None
+        if hb is None or not hb.in_repo() or hb.public or hb.kind == "closure" or hb.impl_trait is not None:
+            continue
+        hrec, hrea, hsea, hplain = v2b_roles(hb)
+        if not (hrec or hrea):
+            continue
+        hcfg = cfg_of(hb)
+        oks = set(ok_blocks(hb))
+        if hrec:
+            # the helper reconstructs: complete if no Ok return is reachable from the reconstruction without a re-assertion
+            incomplete = any(cfg_.reaches(r, o, avoid=hrea | hplain) for cfg_ in (hcfg,) for r in hrec for o in oks)
+            helper_note.append("%s reconstructs and %s" % (hb.name, "may return Ok without re-asserting" if incomplete else "re-asserts on every Ok path"))
+            if incomplete:
+                rec.add(s.block)
+        elif hrea:
+            # re-asserts only: counts when every Ok return lies behind a re-assertion
+            if not any(hcfg.reaches(0, o, avoid=hrea) or o == 0 for o in oks):
+                rea.add(s.block)
+    cfg = cfg_of(b)
+    seals = inlined_sites(facts, b, lambda t: t.callee.name == "add" and "RevisionTree" in t.callee.path)
+    n_recon = len(inlined_sites(facts, b, lambda t: t.callee.name == R.name("recon")))
+    if n_recon and seals:
+        skip = any(cfg.reaches(r, s.outer_block, avoid=rea | plain_only) for r in rec for s in seals)
+        res.instance("V2", "resolve_as: no path from the reconstruction to the sealing loop skips update_object / delete_object: %s%s" % (
+            not skip, " (" + "; ".join(helper_note) + ")" if helper_note else ""), b.loc())
         if skip:
             res.violation("V2", "resolve_as|reassertion-skippable",
                           "resolve_as can seal the other leaves without re-asserting the chosen state (a path skips update_object / delete_object): for a flattened "
-                          "array in conflict the merged order is then never stored and the elements of the sealed leaves disappear", recon[0].loc())
+                          "array in conflict the merged order is then never stored and the elements of the sealed leaves disappear", b.loc())
 
     # ------------------------------------------------------------------ V3
     adds = [s for s in cg.sites[b.path] if s.callee is not None and s.callee.name == "add" and "RevisionTree" in s.callee.path]
@@ -114,14 +143,22 @@ def run(facts, res):
         staged = stg[0] == "const" and stg[1] == "bool" and stg[2] is True
         # iteration over the whole leaf set
         whole = False
+        ne = False
         for x in walk(par):
             if x[0] == "call" and callee_name(x) == "next":
                 chain = x[2][0]
                 names = [callee_name(c) for c in walk(chain) if c[0] == "call"]
                 if "get_leafs" in names and whole_iteration(b, par):
                     whole = True
+                elif "get_leafs" in names and "filter" in names and _filters_reject_only_equal(facts, chain) and \
+                        not (set(names) & (PARTIAL_ADAPTERS - {"filter"})) and cfg_of(b).is_loop_header(x[3]):
+                    # `leafs.iter().filter(|r| **r != winner)..collect()` then a loop over the collected losers
+                    whole = True
+                    for l in lits_of(b, s.block, facts):
+                        if l.kind == "call" and callee_name(l.term) in ("ne", "eq") and l.truth == (callee_name(l.term) == "ne") and \
+                                any(contains_call(y, "get_winner") for y in l.term[2][:2]):
+                            ne = True
         # under leaf != winner where winner = get_winner() of the tree
-        ne = False
         for l in lits_of(b, s.block, facts):
             if l.kind == "call" and callee_name(l.term) in ("ne", "eq") and l.truth == (callee_name(l.term) == "ne"):
                 a0, a1 = l.term[2][0], l.term[2][1]
@@ -172,17 +209,38 @@ def run(facts, res):
     res.floor("V4", "sites re-asserting an object read back from storage", n4, 2)
     # a chosen deletion is re-expressed as a deletion
     ok5 = False
-    for s in cg.sites[b.path]:
-        if not s.targets:
-            continue
-        if any(cg.reaches(t, "revision::Revision::new_deleted") for t in s.targets):
-            for l in lits_of(b, s.block, facts):
-                if l.kind == "call" and callee_name(l.term) == "is_deleted" and l.truth is True and _from_param(l.term[2][0], "winner"):
-                    ok5 = True
-                    res.instance("V4", "resolve_as: on chosen.is_deleted() the deletion is re-asserted through %s (reaches Revision::new_deleted)" % s.name(), s.loc())
+    for s in inlined_sites(facts, b, lambda t: any(cg.reaches(fb_, "revision::Revision::new_deleted") for fb_ in [facts.body(t.callee.target())] if fb_ is not None and fb_.public)):
+        for l in s.lits:
+            if l.kind == "call" and callee_name(l.term) == "is_deleted" and l.truth is True and _from_param(l.term[2][0], "winner"):
+                ok5 = True
+                res.instance("V4", "resolve_as: on chosen.is_deleted() the deletion is re-asserted through %s (reaches Revision::new_deleted)" % s.term.callee.name, s.loc())
     if not ok5:
         res.violation("V4", "resolve_as|deletion-not-reexpressed",
                       "resolve_as has no branch that re-asserts a chosen deletion through Revision::new_deleted")
+
+
+def _filters_reject_only_equal(facts, chain):
+    """every `filter` of the chain rejects an element only when it equals something (the winner): the closure's `false` result
+    lies behind an eq-true / ne-false literal"""
+    from ..conds import closure_result_lits
+    n = 0
+    for x in walk(chain):
+        if x[0] != "call" or callee_name(x) != "filter" or len(x[2]) < 2:
+            continue
+        c_ = x[2][1]
+        hops = 0
+        while hops < 20 and c_[0] in ("ref", "deref", "cast", "var"):
+            hops += 1
+            c_ = c_[3] if c_[0] == "var" else c_[1]
+        fcb = facts.body(c_[1]) if c_[0] == "closure" else None
+        if fcb is None:
+            return False
+        fl = closure_result_lits(fcb, facts, False)
+        if not any((l.kind == "call" and callee_name(l.term) in ("eq", "ne") and l.truth == (callee_name(l.term) == "eq")) or
+                   (l.kind == "cmp" and l.term[1] in ("Eq", "Ne") and l.truth == (l.term[1] == "Eq")) for l in fl):
+            return False
+        n += 1
+    return n > 0
 
 
 def _from_param(t, name):
